@@ -17,7 +17,7 @@ theorem removalsFirst_isEmpty {ε : Type} (rawKey : ε → Str) (L : List ε) :
   | nil => rfl
   | cons e r =>
     unfold removalsFirst
-    cases hm : isMarked (rawKey e) <;> simp [List.filter_cons, hm]
+    cases hm : isMarked (rawKey e) <;> simp [hm]
 
 namespace Devices
 
